@@ -129,6 +129,11 @@ def run(ctx):
             for _ in range(20):
                 p = rng.randrange(len(nm))
                 probes.append(nm[:p] + chr((ord(nm[p]) + 1) % 127 or 65) + nm[p + 1:])
+    # a name followed by 2^8 / 2^9 / 2^16 further bytes (a length kept in 8 or 16 bits would not see them)
+    for k, nm in enumerate(sorted(names)):
+        probes += [nm + 'A' * 256, nm + '_' * 512, nm + nm[-1] * 255]
+        if k % 40 == 0:
+            probes += [nm + 'A' * 65536, nm + 'B' * 65535, ('C' * 256) + nm]
     probes += ['', 'TLS', 'TLS_', 'X', 'TLS_AES_128_GCM_SHA256\n']
     plines = ['cs_name %s' % core.hexs(p.encode()) for p in probes]
     pim = core.run_lines(exe, plines)
@@ -139,6 +144,23 @@ def run(ctx):
             ctx.cov['impl_vs_oracle_failures'] += 1
             ctx.violation('cs_name %r: implementation "%s", demanded "%s"' % (p, a, want), {'lines': [ln], 'expect': want, 'impl': a}, key='name:' + p[:30])
     ctx.sample({'line': plines[0], 'impl': pim[0]})
+    # no memory across *different* entry points either: id and name lookups interleaved in one process (the same id before and
+    # after a lookup by another suite's name, a name before and after lookups by id) answer what each answers alone
+    nlist = sorted(names)
+    seq = []
+    for _ in range(400 if ctx.thorough else 150):
+        x = rng.choice(sorted(frows)) if rng.random() < .6 else rng.randrange(65536)
+        nm = rng.choice(nlist)
+        other = rng.choice((nm, nm[:-1], nm + '_'))
+        seq += ['cs_id %d' % x, 'cs_name %s' % core.hexs(other.encode()), 'cs_id %d' % x, 'cs_row %d' % x, 'cs_name %s' % core.hexs(nm.encode()), 'cs_id %d' % names[nm]]
+    together = core.run_lines(exe, seq, chunk=len(seq))
+    alone = core.run_lines(exe, seq, chunk=1)
+    for ln, a, b in zip(seq, together, alone):
+        ctx.count('interleaved_lookups', 'same' if a == b else 'DIFFER')
+        if a != b:
+            ctx.violation('%s answers "%s" after other lookups in the same process, "%s" as the only call of a fresh process' % (ln[:80], a[:120], b[:120]),
+                          {'lines': seq[:seq.index(ln) + 1][-8:], 'in_sequence': a, 'alone': b}, key='interleave:' + ln.split(' ')[0])
+            break
     # "nothing for any other string", at scale: millions of near-miss strings (registry names with numeric / alphabetic tails,
     # one changed character, a changed prefix) generated inside the harness; none may resolve (a lookup that trusts a short
     # hash or a prefix match would let some through)
